@@ -75,7 +75,8 @@ impl RealVectorStateSpace {
                     });
                 }
                 for bound in &explicit_bounds {
-                    if bound.0 >= bound.1 {
+                    // Written so that a NaN bound is rejected as well.
+                    if !(bound.0 < bound.1) {
                         return Err(StateSpaceError::InvalidBound {
                             lower: bound.0,
                             upper: bound.1,
